@@ -9,7 +9,7 @@
    setOutcome calls (failedToStart / setOutcome / failed / assert / failRemaining) and of
    recordSideband calls.  client_runner.go is the scripted interface, not modelled.
    The loop is structural recursion over the batch: no fuel.  No proofs here. *)
-From V Require Export Base C11_Consts C11_Proc.
+From V Require Export Base C11_Consts C11_Proc C11_Start.
 Open Scope N_scope.
 
 (* ---------- outcomes ---------- *)
@@ -382,8 +382,50 @@ Definition plain_server : server := mkServer true WOk (RValid false) false None 
         1: the methods of cmdProcess over a scripted operating system (WaitDelay: the script's)
         2: localProcess through runInProcess
         3, 4: runTestCasesForServer over 1 resp. 2 with a batch of n passing cases *)
+(* mode 5: the real runTestCasesForServer over the REAL runCommand around a child that is scripted in
+   what it does with its stdin (C11_Start): (in-time 0 child-gone 0 passes setups).  The child reacts to
+   SIGTERM by exiting at once; the plumbing is the one bounded termination needs (repaired_plumbing: for
+   children that let go of their stdin by exiting it is the code's, see start_write_code). *)
+Definition okind_eqb (a b : okind) : bool :=
+  match a, b with
+  | KPass, KPass | KFail, KFail | KSetup, KSetup | KCouldNotRun, KCouldNotRun | KNoResult, KNoResult | KCbErr, KCbErr => true
+  | _, _ => false
+  end.
+Definition sigterm_exits : child := mkChild None (TExit 0 0) None true false.
+Definition one_count (k : okind) (cs : list case) (r : result) : nat :=
+  length (filter (fun c => match final c.(c_name) r.(r_log) with
+                           | Some k' => okind_eqb k k' && Nat.eqb (count c.(c_name) r.(r_log)) 1
+                           | None => false end) cs).
+Definition run_c11_start (sc : sx) : option sx :=
+  do ss <- un_sscript sc;
+  let P := code_params c11_wait_delay_ms in
+  let ch := ss.(ss_child) in
+  let cs := plain_cases ss.(ss_n) in
+  let out (it dead : bool) (r : result) :=
+    ret (L [sx_bool it; I 0%Z; sx_bool dead; I 0%Z; sx_nat (one_count KPass cs r); sx_nat (one_count KSetup cs r)]) in
+  if start_succeeds ch then
+    (* the ordinary full path: every case passes, then the child is told to stop *)
+    let r := run_batch false (mkServer true WOk (RValid true) true None false false [] false) cs in
+    let t := batch_stop_time P (PCmd sigterm_exits) r in
+    out (in_time (option_map (N.add ss.(ss_sd)) t)) (cmd_stop P sigterm_exits).(pr_dead) r
+  else
+    let t := start_fault_return repaired_plumbing P ss.(ss_cap) ss.(ss_len) ss.(ss_sd) c11_response_timeout_ms ch sigterm_exits in
+    let sv := match start_write repaired_plumbing ss.(ss_cap) ss.(ss_len) ss.(ss_sd) ch with
+              | WFail _ => mkServer true WWriteErr RBad true None false false [] false
+              | _ => mkServer true WOk RBad true None false false [] false
+              end in
+    let r := run_batch false sv cs in
+    match t with
+    | Some _ =>
+      let at_ := match start_failed_at repaired_plumbing ss.(ss_cap) ss.(ss_len) ss.(ss_sd) c11_response_timeout_ms ch with
+                 | Some x => x | None => 0 end in
+      out (in_time t) (cmd_stop P (child_at ss.(ss_sd) at_ ch sigterm_exits)).(pr_dead) r
+    | None => ret (L [sx_bool false; I 0%Z; sx_bool false; I 0%Z; I 0%Z; I 0%Z])
+    end.
+
 Definition run_c11_proc (args : list sx) : sx :=
   or_bad (match args with
+  | [I 5%Z; I 1%Z; sc] => run_c11_start sc
   | [I mode; I k; sc] =>
     do ps <- un_pscript sc;
     let ch := child_of ps in
